@@ -11,6 +11,7 @@ Verdict(e) ==
   ELSE IF e.enc_after # e.enc_before THEN "rejected_call_changed_the_encoding"
   ELSE IF e.tree_after # e.tree_before THEN "rejected_call_changed_the_children"
   ELSE IF e.root_after # e.root_before THEN "rejected_call_changed_an_ancestor"
+  ELSE IF e.trail_after # e.trail_before THEN "rejected_call_changed_the_encoding"      \* (with trailing children)
   ELSE "ok"
 (* C10 on the same probes, whatever the outcome: e.links = every (lister, listed child) pair below the root of the     *)
 (* target and below any other element the call involved: <<lister, child, child.parent is lister, same version/level>> *)
